@@ -255,7 +255,7 @@ def replay_grep(W, idx, plan):
     if oc in ("ran", "killed"):
         oenv = {"PATH": os.environ.get("PATH", "/usr/bin:/bin"), "LC_ALL": "C"}
         G = [W.tools["grep"]] + {"xzegrep": ["-E"], "xzfgrep": ["-F"]}.get(plan["prog"], []) + M["gargs"]
-        exp_impl = b""; exp_contract = b""
+        exp_impl = b""; exp_contract = b""; exp_Hwins = b""
         for k, o in enumerate(plan["out"]):
             f = o["f"]; data = M["seen"].get(f, b""); name = M["names"].get(f)
             if name is None:
@@ -285,12 +285,23 @@ def replay_grep(W, idx, plan):
                 raw = sh(G, d, oenv, data)[1]
                 exp_i = b"".join(name + b":" + l + b"\n" for l in raw.split(b"\n")[:-1])
             exp_impl += exp_i; exp_contract += exp_c
+            if plan.get("hhconf") and how == "plain":
+                # what a script in which -H always beats -h (the behaviour before fix 7cf9214) would print
+                if plan["labelOK"]:
+                    exp_Hwins += lines("label", name)
+                else:
+                    exp_Hwins += b"".join((b"-" if f == "-" else name) + b":" + l + b"\n" for l in exp_c.split(b"\n")[:-1])
+            else:
+                exp_Hwins += exp_c
         if out == exp_contract:
             pass
         elif plan["div"] and out == exp_impl:
             for tag in plan["div"]:
                 probs.append(("contract:grep:" + tag, "real script output equals the transcription's prediction, "
                               "not the contract's: got %r want %r" % (out[:300], exp_contract[:300])))
+        elif plan.get("hhconf") and out == exp_Hwins:
+            probs.append(("contract:grep:H-then-h", "-H given before -h still labels the lines (in grep the last of -h/-H wins): "
+                          "got %r want %r" % (out[:300], exp_contract[:300])))
         else:
             hows = sorted(set(o["how"] for o in plan["out"]))
             probs.append(("replay:grep:stdout:%s" % "+".join(hows), "stdout %r, expected %r" % (out[:400], exp_contract[:400])))
@@ -450,10 +461,9 @@ def tlc_jobs(ctx):
     return [
         # name, module, cfg, workers, timeout, exhaustive, strict-tag
         ("MCXzGrep(scanner, wide vocabulary, MaxOpts=%d)" % (1 if q else 2), "MCXzGrep", "MCXzGrep.cfg" if q else "MCXzGrepWide2.cfg", 3, 240 if q else 1200, True, None),
-        ("MCXzGrep(scanner+file loop, all file-state vectors <= 3)", "MCXzGrep", "MCXzGrepFiles.cfg", 3, 240, True, None),
-        ("MCXzGrep(strict label contract)", "MCXzGrep", "MCXzGrepStrict_label.cfg", 1, 120, None, "grep:H-then-h"),
+        ("MCXzGrep(scanner+file loop, all file-state vectors <= 3)", "MCXzGrep", "MCXzGrepFiles.cfg" if q else "MCXzGrepFilesBig.cfg", 3, 240 if q else 1200, True, None),
         ("MCXzGrep(strict context-separator contract)", "MCXzGrep", "MCXzGrepStrict_sedctx.cfg", 1, 120, None, "grep:sed-context"),
-        ("MCXzDiff", "MCXzDiff", "MCXzDiff.cfg", 2, 240, True, None),
+        ("MCXzDiff", "MCXzDiff", "MCXzDiff.cfg" if q else "MCXzDiffBig.cfg", 2, 240 if q else 1200, True, None),
         ("MCXzDiff(strict: stdin as second operand)", "MCXzDiff", "MCXzDiffStrict.cfg", 1, 120, None, "diff:stdin-second-operand"),
     ]
 
@@ -497,7 +507,9 @@ def run(ctx):
     dp = [p for p in plans_from_tlc(dgen.out) if all(W.have[f] for f in diff_formats(p))]
     if len(gp) < n_grep // 2 or len(dp) < n_diff // 2:
         raise MachineryError("plan generation produced only %d / %d plans" % (len(gp), len(dp)))
-    gsel = select(gp, n_grep, ("H-then-h", "sed-context"))
+    gsel = select(gp, n_grep, ("sed-context",))
+    hh = [p for p in gp if p.get("hhconf") and p not in gsel][:4]          # -H ... -h plans are rare: always include some
+    gsel += hh
     dsel = select(dp, n_diff, ("stdin-second-operand",))
     ctx.log("plans: xzgrep %d (pool %d), xzdiff %d (pool %d); strict-contract deviations found by TLC: %s"
             % (len(gsel), len(gp), len(dsel), len(dp), sorted(strict)))
